@@ -38,12 +38,17 @@ func (gowrapSuite) Gen(r *rand.Rand, i int) Case {
 		if r.Intn(8) == 0 {
 			nilc, lost, via, fn = 1, 0, "cancel", "run" // a nil circuit runs the function directly: no fallback
 		}
+		dis := 0
+		if nilc == 0 && fn == "run" && via == "cancel" && r.Intn(6) == 0 {
+			dis = 1 // a Disabled circuit passes the function straight through — Go must still surface its outcome once
+			c.Tags = append(c.Tags, "disabled-circuit")
+		}
 		cdl := 0
 		if via == "timeout" && r.Intn(2) == 0 {
 			cdl = 1 // the caller's own context carries a LATER deadline: the execution timeout must still end the call
 			c.Tags = append(c.Tags, "caller-deadline")
 		}
-		c.Ops = append(c.Ops, fmt.Sprintf("go fn=%s out=%s finish=%d ctx=%s via=%s lost=%d nilc=%d cdl=%d", fn, out, finish, ctx, via, lost, nilc, cdl))
+		c.Ops = append(c.Ops, fmt.Sprintf("go fn=%s out=%s finish=%d ctx=%s via=%s lost=%d nilc=%d cdl=%d dis=%d", fn, out, finish, ctx, via, lost, nilc, cdl, dis))
 		c.Tags = append(c.Tags, "ctx-"+ctx, "fn-"+fn)
 		if strings.HasPrefix(out, "panic") {
 			c.Tags = append(c.Tags, "panic")
@@ -111,6 +116,7 @@ func runGoScenario(m map[string]string) string {
 		if m["lost"] == "1" {
 			cfg.General.GoLostErrors = lostCb
 		}
+		cfg.General.Disabled = m["dis"] == "1"
 		c = circuit.NewCircuitFromConfig("g", cfg)
 	}
 	ctx, cancel := context.WithCancel(context.Background())
